@@ -68,6 +68,10 @@ type c14World struct {
 	openDrv int64 // driver-level open statements
 	gated   bool  // false: nothing parks (free-running mode)
 	wg      sync.WaitGroup
+	// abandoned (under mu): the controller gave up on this world (hang): nothing parks any more, every parked
+	// and every later driver call fails immediately, so that whatever can still unwind does
+	abandoned bool
+	maxOpen   int // > 0: database/sql pool limit (suite "pool"); 0 = unlimited
 }
 
 // ---- fake driver ----
@@ -147,6 +151,10 @@ func c14SQL(text int) string { return fmt.Sprintf("SELECT %d /* c14 */", text) }
 func (w *c14World) park(tid int, kind string, text int) string {
 	g := &c14Gate{kind: kind, text: text, ch: make(chan string, 1)}
 	w.mu.Lock()
+	if w.abandoned {
+		w.mu.Unlock()
+		return "err"
+	}
 	w.gates[tid] = g
 	w.events = append(w.events, c14Event{tid, "arrive" + kind, text})
 	w.mu.Unlock()
@@ -232,9 +240,16 @@ func (t *c14PoolTx) PrepareContext(ctx context.Context, q string) (*sql.Stmt, er
 }
 
 func newC14World(nViews int, ops []c14Op, gated bool) *c14World {
-	w := &c14World{gates: map[int]*c14Gate{}, sticky: map[int]string{}, ops: ops, gated: gated,
+	return newC14WorldPool(nViews, ops, gated, 0)
+}
+
+func newC14WorldPool(nViews int, ops []c14Op, gated bool, maxOpen int) *c14World {
+	w := &c14World{gates: map[int]*c14Gate{}, sticky: map[int]string{}, ops: ops, gated: gated, maxOpen: maxOpen,
 		results: make([]string, len(ops)), started: make([]bool, len(ops))}
 	w.sqlDB = sql.OpenDB(&c14Connector{w})
+	if maxOpen > 0 {
+		w.sqlDB.SetMaxOpenConns(maxOpen)
+	}
 	pool := &c14Pool{DB: w.sqlDB, w: w}
 	v0 := gorm.NewPreparedStmtDB(pool)
 	w.views = []*gorm.PreparedStmtDB{v0}
@@ -303,6 +318,33 @@ func (w *c14World) runOp(tid int) (res string) {
 			return "wrongRows"
 		}
 		return "rows"
+	case "tx2":
+		// suite "pool" only: one transaction, two statements (texts q, then q+2); the transaction owns its
+		// connection from BeginTx to Commit/Rollback
+		cp, err := v.BeginTx(ctx, nil)
+		if err != nil {
+			return "other:" + err.Error()
+		}
+		tx := cp.(*gorm.PreparedStmtTX)
+		for k := 0; k < 2 && err == nil; k++ {
+			qk := c14SQL(op.Text + 2*k)
+			var r sql.Result
+			r, err = tx.ExecContext(ctx, qk)
+			if err == nil {
+				if n, _ := r.RowsAffected(); n != c14RowValue(qk) {
+					err = errors.New("wrongRows")
+				}
+			}
+			w.mu.Lock()
+			delete(w.sticky, tid) // the next statement of this goroutine parks again
+			w.mu.Unlock()
+		}
+		if err == nil {
+			_ = tx.Commit()
+		} else {
+			_ = tx.Rollback()
+		}
+		return c14Classify(err)
 	case "tx":
 		cp, err := v.BeginTx(ctx, nil)
 		if err != nil {
@@ -348,6 +390,29 @@ func (w *c14World) release(tid int, ans string) {
 	w.events = append(w.events, c14Event{tid, "rel" + g.kind + ":" + ans, g.text})
 	w.mu.Unlock()
 	g.ch <- ans
+}
+
+// abandon gives up on a world whose goroutines hang: every parked driver call is answered with an error and no
+// later call parks, so every goroutine that is not blocked inside the cache for good unwinds; then the cache
+// structs and the pool are closed from a helper goroutine (Close may itself block on the cache mutex of a broken
+// cache, the controller must not).  Goroutines that stay blocked forever are left behind: they hold no OS resource
+// and do not keep the process from exiting.
+func (w *c14World) abandon() {
+	w.mu.Lock()
+	w.abandoned = true
+	gs := w.gates
+	w.gates = map[int]*c14Gate{}
+	w.mu.Unlock()
+	for _, g := range gs {
+		g.ch <- "err"
+	}
+	go func() {
+		for _, v := range w.views {
+			v.Close()
+		}
+		w.sqlDB.Close()
+	}()
+	c14Settle(200 * time.Millisecond)
 }
 
 // gate snapshot sorted by thread: [[t,"P"|"U"]...]
